@@ -554,6 +554,36 @@ func (r *c38run) RunSeq(sched *simrt.Source, keepLog bool) *simrt.Result {
 				r.fail("oracle:write-error-lost", fmt.Sprintf("call %d to the stream failed but Write reported no error", w.transientCall), "write error swallowed")
 			}
 		}
+		// a message that cannot be encoded is refused without writing anything,
+		// so the frames around it still read back exactly
+		{
+			w := &simWriter{failAt: -1}
+			fw := jsonrpc2.HeaderFramer().Writer(w)
+			k := sched.Draw(len(r.msgs) + 1)
+			for i := 0; i <= len(r.msgs) && r.failure == nil; i++ {
+				if i == k {
+					before := w.buf.Len()
+					_, err := fw.Write(context.Background(), &jsonrpc2.Request{Method: "unencodable", Params: json.RawMessage(`{"broken`)})
+					res.Faults["unencodable-message"]++
+					r.cases++
+					if err == nil {
+						r.fail("oracle:write-error-lost", "a message with invalid JSON parameters was written without error", "unencodable message accepted")
+					} else if w.buf.Len() != before {
+						r.fail("oracle:write-bytes", fmt.Sprintf("a refused message left %d bytes in the stream", w.buf.Len()-before), "refused message wrote bytes")
+					}
+				}
+				if i < len(r.msgs) {
+					msg, _ := r.msgs[i].build()
+					if _, err := fw.Write(context.Background(), msg); err != nil {
+						r.fail("oracle:write-failed", "writing a valid message failed: "+err.Error(), "writer rejected a valid message")
+					}
+				}
+			}
+			if r.failure == nil {
+				out := readBack(&simReader{data: w.buf.Bytes(), endErr: io.EOF, chunk: seeded()}, len(r.msgs)+1)
+				r.expectPrefix("stream with a refused message in the middle", out, r.msgs, len(r.msgs), true)
+			}
+		}
 		// cancelled contexts consume and produce nothing
 		cctx, cancel := context.WithCancel(context.Background())
 		cancel()
